@@ -364,6 +364,44 @@ fn a_extras(rt: &tokio::runtime::Runtime, bag: &mut VioBag) -> u64 {
             bag.add("C19:default-resolver", || Violation { signature: "C19:default-resolver".into(), summary: format!("unknown host name: {}", err_name(&e)), replay: json!({"part": "extras"}) });
         }
     }
+    // all candidates fail, in different ways: the error of the *last* one is reported. Candidates:
+    // a closed port on the harness address (refused) and an IPv6 loopback port dialled from an
+    // IPv4 local address (refused by the kernel before anything is sent, a different errno);
+    // the reference is what each candidate gives when it is dialled alone.
+    {
+        let closed = make_target(false).addr;
+        let closed2 = make_target(false).addr;
+        let v6: SocketAddr = "[::1]:9".parse().unwrap();
+        let dial = |list: Vec<SocketAddr>| -> Result<SocketAddr, (String, Option<i32>)> {
+            rt.block_on(async {
+                let req = ConnectInfo::new("name.test".to_string()).set_addrs(list).set_local_addr(IpAddr::V4(BIND_IP));
+                match tokio::time::timeout(Duration::from_secs(10), connect::tcp::TcpConnector::default().service().call(req)).await {
+                    Err(_) => Err(("hang".to_string(), None)),
+                    Ok(Ok(c)) => Ok(c.into_parts().0.peer_addr().unwrap()),
+                    Ok(Err(ConnectError::Io(e))) => Err((format!("Io({:?})", e.kind()), e.raw_os_error())),
+                    Ok(Err(e)) => Err((err_name(&e), None)),
+                }
+            })
+        };
+        let alone: Vec<(SocketAddr, Result<SocketAddr, (String, Option<i32>)>)> = [closed, v6, closed2].into_iter().map(|a| (a, dial(vec![a]))).collect();
+        let distinct = alone[0].1 != alone[1].1 && alone.iter().all(|(_, r)| r.is_err());
+        if distinct {
+            let idx_lists: Vec<Vec<usize>> = vec![vec![0, 1], vec![1, 0], vec![0, 1, 2], vec![1, 0, 2], vec![0, 2, 1], vec![1, 2, 0], vec![1, 1, 0], vec![0, 0, 1]];
+            for il in idx_lists {
+                n += 1;
+                let list: Vec<SocketAddr> = il.iter().map(|i| alone[*i].0).collect();
+                let got = dial(list.clone());
+                let want = alone[*il.last().unwrap()].1.clone();
+                if got != want {
+                    bag.add("C19:not-the-last-io-error", || Violation {
+                        signature: "C19:not-the-last-io-error".into(),
+                        summary: format!("every address of {:?} fails; the connector reported {:?}, the last candidate alone gives {:?} (first alone: {:?})", list, got, want, alone[il[0]].1),
+                        replay: json!({"part": "extras"}),
+                    });
+                }
+            }
+        }
+    }
     // a bare ResolverService leaves pre-set addresses alone
     n += 1;
     let keep: SocketAddr = "127.89.7.9:4242".parse().unwrap();
